@@ -229,6 +229,21 @@ def _interval_arith(res):
                 continue
             if r.start != round(a, n) or r.end != round(b, n) or r.start > r.end:
                 res.violation(f"C16|Interval.__round__|n:{n}|wrong-image", f"[{r.start},{r.end}]", case)
+    # rounding with a number of digits, on bounds that lie (in decimal notation) half-way between two representable results: the image of a
+    # bound is what round(bound, n) gives
+    HALF = [0.125, 1.15, 2.675, -0.285, 2.5, 0.5, 1.005, -1.5, 1234.5678]
+    for a, b in itertools.combinations_with_replacement(sorted(HALF), 2):
+        for n in (None, 0, 1, 2, 3, -1):
+            case = {"op": "round", "a": a, "b": b, "n": n}
+            res.evals += 1; res.transitions += 1; res.nontrivial += 1
+            try:
+                r = round(Interval(a, b), n)
+            except Exception as e:
+                res.violation(f"C16|Interval.__round__|n:{n}|raises:{type(e).__name__}", repr(e), case)
+                continue
+            if r.start != round(a, n) or r.end != round(b, n) or r.start > r.end:
+                res.violation(f"C16|Interval.__round__|n:{'None' if n is None else ('neg' if n < 0 else ('0' if n == 0 else '>=1'))}|wrong-image",
+                              f"round([{a},{b}], {n}) = [{r.start!r},{r.end!r}], the bounds round to {round(a, n)!r}, {round(b, n)!r}", case)
     res.sample({"op": "arith", "scalars": scal + [0], "shifts": A}, 1)
 
 
